@@ -507,15 +507,57 @@ def seg_of(i, ver):
 
 
 def replay(case):
+    if case and case[0] == "limits":
+        return run_limits(*case[1:])
     if case and case[0] == "sched":
         from vf.props import c09
         return c09.replay(case)
     return run_case(c04._unjson(case))
 
 
+def run_limits(ver, which, n):
+    """descriptor lists whose byte count reaches or passes the width of their LENGTH field (2047 / 2048 / 2049 CSCD descriptors of 32
+    bytes around 65535; 2340 / 2341 segment descriptors of 28 bytes): the command is refused, or every embedded length equals the
+    bytes that follow - a length field never wraps"""
+    import copy as _copy
+    from vf.props import c09
+    name = "ExtendedCopy%d" % ver
+    cls = CS.get_class(name)
+    kw = {}
+    if which == "cscd":
+        kw["target_descriptor_list" if ver == 4 else "cscd_descriptor_list"] = _copy.deepcopy([c09._cscd(ver, 3, c09.NAA2)] * n)
+    else:
+        kw["segment_descriptor_list"] = _copy.deepcopy([c09.SEG4 if ver == 4 else c09.SEG5] * n)
+    try:
+        cmd = cls(opcode_of(name), **kw)
+    except Exception:   # noqa: BLE001 - refused
+        return []
+    d = bytes(cmd.dataout)
+    hdr = 16 if ver == 4 else 48
+    ncscd = n * 32 if which == "cscd" else 0
+    nseg = n * 28 if which == "seg" else 0
+    if ver == 4:
+        got = {"cscd": int.from_bytes(d[2:4], "big"), "seg": int.from_bytes(d[8:12], "big")}
+    else:
+        got = {"cscd": int.from_bytes(d[42:44], "big"), "seg": int.from_bytes(d[44:46], "big")}
+    out = []
+    where = "%s with %d %s descriptors" % (name, n, "CSCD" if which == "cscd" else "segment")
+    if len(d) != hdr + ncscd + nseg:
+        out.append(("limits/total/%s" % name, "%s: parameter list of %d bytes, expected %d" % (where, len(d), hdr + ncscd + nseg)))
+    if got["cscd"] != ncscd or got["seg"] != nseg:
+        out.append(("limits/length_field_wraps/%s/%s" % (name, which), "%s: %d + %d bytes of descriptors follow the header, the length fields say %d and %d"
+                    % (where, ncscd, nseg, got["cscd"], got["seg"])))
+    if int.from_bytes(bytes(cmd.cdb)[10:14], "big") != len(d):
+        out.append(("limits/cdb/%s" % name, "%s: PARAMETER LIST LENGTH %d, list has %d bytes" % (where, int.from_bytes(bytes(cmd.cdb)[10:14], "big"), len(d))))
+    return out
+
+
+LIMIT_CASES = [(ver, "cscd", n) for ver in (4, 5) for n in (2046, 2047, 2048, 2049, 4096)] + [(ver, "seg", n) for ver in (4, 5) for n in (2339, 2340, 2341, 2342, 4681)]
+
+
 def partitions(tier):
     parts = [["mode", 0], ["mode", 1], ["prout_keys"], ["prout_tids"], ["prout_iscsi"], ["xcopy", 4], ["xcopy", 5]]
-    return [[p, c] for p in parts for c in range(NCHUNK)] + [[["shared_threads", 4], 0], [["shared_threads", 5], 0]]
+    return [[p, c] for p in parts for c in range(NCHUNK)] + [[["shared_threads", 4], 0], [["shared_threads", 5], 0], [["limits"], 0]]
 
 
 def gen(part, tier):
@@ -624,6 +666,19 @@ NCHUNK = 4
 def run_partition(part, tier, seed):
     acc = Acc(seed)
     part, chunk = part
+    if part[0] == "limits":
+        for (ver, which, n) in LIMIT_CASES:
+            case = ["limits", ver, which, n]
+            acc.case(case, nontrivial=True, key=repr(case))
+            try:
+                v = run_limits(ver, which, n)
+            except Exception:
+                import traceback
+                v = [("harness_error", traceback.format_exc()[-600:])]
+            for k, w in v:
+                acc.violation(k, w, case)
+            acc.outcome((repr(case), tuple(k for k, _ in v)))
+        return acc
     if part[0] == "shared_threads":
         # two threads build EXTENDED COPY commands from ONE set of caller dictionaries (a job template handed to two workers): all
         # schedules with one preemption at every source line; each thread's CDB and parameter list are what it builds alone
